@@ -473,6 +473,7 @@ func (vc *VC) mergeTerms(vs []Term, conds []Term, base string) Term {
 
 func (fr *Frame) instr(in ssa.Instruction, st *State, pc Term, b *ssa.BasicBlock) {
 	vc := fr.vc
+	vc.curSt = st
 	switch in := in.(type) {
 	case *ssa.DebugRef:
 	case *ssa.Alloc:
@@ -617,6 +618,8 @@ func (fr *Frame) instr(in ssa.Instruction, st *State, pc Term, b *ssa.BasicBlock
 		vc.oblige("unreachable-panic", "safety", "panic", pc, tFalse, "explicit panic must be unreachable")
 	case *ssa.If, *ssa.Jump:
 	case *ssa.Go:
+		// the spawned function's preconditions must hold where it is started
+		fr.goRequires(in, st, pc)
 		vc.warn("%s: go statement: effects of the goroutine are not tracked (heap havoc)", fr.fn.Name())
 		vc.havocAllHeaps(st)
 		fr.havocCaptured(st, pc)
